@@ -533,23 +533,23 @@ COLLS = {
 }
 
 
-def run_colls(ctx, cases, seeds, inputs_file=None):
+def run_colls(ctx, cases, seeds, inputs_file=None, binname='colls', prefix='C '):
     res = {'summary': {'cases': 0, 'mismatches': 0, 'impl_monitor_failures': 0, 'unwound': 0, 'with_drop_panic': 0, 'nontrivial': 0, 'distinct': 0, 'by_kind_op': {}},
            'implx': [], 'mism': [], 'samples': []}
     for release in (False, True):
-        exe = ctx.cargo_build('colls', release=release)
+        exe = ctx.cargo_build(binname, release=release)
         if exe is None:
             return None
         b = 'release' if release else 'debug'
         for sd in seeds:
-            trace = os.path.join(CACHE, 'colls_%s_%s_%d.txt' % (ctx.pid, b, sd))
+            trace = os.path.join(CACHE, '%s_%s_%s_%d.txt' % (binname, ctx.pid, b, sd))
             cmd = ('%s --input %s > %s' % (exe, inputs_file, trace)) if inputs_file else ('%s --seed %d --cases %d > %s' % (exe, sd, cases, trace))
             rc, out, dt = sh(cmd, timeout=1800)
             if rc != 0:
-                ctx.problems.append(('harness', 'colls harness crashed rc=%d %s' % (rc, out[-300:])))
-            rc2, out2, _ = sh('%s colls < %s' % (DRV, trace), timeout=1800)
+                ctx.problems.append(('harness', '%s harness crashed rc=%d %s' % (binname, rc, out[-300:])))
+            rc2, out2, _ = sh('%s %s < %s' % (DRV, binname, trace), timeout=1800)
             if rc2 != 0:
-                ctx.problems.append(('driver', 'drv colls failed: ' + out2[-400:]))
+                ctx.problems.append(('driver', 'drv %s failed: ' % binname + out2[-400:]))
                 continue
             # case line preceding each X line = the input of that monitor failure
             last_case = None
@@ -557,7 +557,7 @@ def run_colls(ctx, cases, seeds, inputs_file=None):
             with open(trace) as f:
                 for l in f:
                     l = l.rstrip('\n')
-                    if l.startswith('C '):
+                    if l.startswith(prefix):
                         last_case = l
                         if len(res['samples']) < 6:
                             res['samples'].append(l[:200])
@@ -572,6 +572,7 @@ def run_colls(ctx, cases, seeds, inputs_file=None):
                     S = res['summary']
                     for k, v in s.items():
                         if isinstance(v, dict):
+                            S.setdefault(k, {})
                             for kk, vv in v.items():
                                 S[k][kk] = S[k].get(kk, 0) + vv
                         else:
@@ -670,3 +671,89 @@ def replay_colls(ctx, path):
 for _p in COLLS:
     globals()['check_' + _p] = check_colls
     globals()['replay_' + _p] = replay_colls
+
+
+# ----------------------------------------------------------------------------------------
+# strings: C09
+# ----------------------------------------------------------------------------------------
+C09_NOTE = ('PARTIAL: str::chars(), core::str::from_utf8 and Utf8Chunks are std code, modelled by Utf8.decode / Utf8.valid / Str.lossy_fuel '
+            'and compared on every case; formatting is compared with std format! on the implementation only')
+
+
+def strs_verdict(ctx, res):
+    for (b, case, xl) in res['implx']:
+        msg = xl.split('::', 1)[1].strip() if '::' in xl else xl
+        ctx.violations.append({'kind': 'strs-case', 'build': b, 'case': case, 'what_fails': xl,
+                               'signature': 'strs:%s' % re.sub(r'[0-9]+', 'N', msg)[:80],
+                               'how_to_replay': 'tools/vcheck C09 --replay <this file>'})
+    rel = res['mism']
+    if rel and not ctx.violations:
+        b, l = rel[0]
+        ctx.problems.append(('tie', 'string model and implementation disagree on %d case(s); first: %s' % (len(rel), l[:700])))
+    return rel
+
+
+def check_C09(ctx):
+    target = 'Properties/C09'
+    ctx.regen()
+    ok, out = ctx.coq_build(target)
+    nthm, nclosed = (0, 0)
+    if ok:
+        nthm, nclosed = ctx.check_assumptions(target, out)
+    else:
+        nthm = len(ctx.pinned(target)[0])
+    ctx.grep_forbidden()
+    if ctx.tier == 'thorough' and ok:
+        ctx.coqchk(target)
+    if ctx.build_driver():
+        cases = 40_000 if ctx.tier == 'quick' else 1_000_000
+        seeds = [ctx.seed] if ctx.tier == 'quick' else [ctx.seed, ctx.seed + 1000003]
+        res = run_colls(ctx, cases, seeds, binname='strs', prefix='S ')
+        if res is not None:
+            rel = strs_verdict(ctx, res)
+            if (rel or ctx.problems) and not ctx.violations:
+                ctx.say('proof or tie broken: searching for a concrete failing case')
+                ctx.problems = [p for p in ctx.problems if p[0] != 'tie']
+                res2 = run_colls(ctx, 600_000, [ctx.seed + 7, ctx.seed + 77], binname='strs', prefix='S ')
+                if res2 is not None:
+                    rel2 = strs_verdict(ctx, res2)
+                    res['summary']['cases'] += res2['summary']['cases']
+                    if (rel or rel2) and not ctx.violations and not any(p[0] == 'tie' for p in ctx.problems):
+                        ctx.problems.append(('tie', 'string model and implementation disagree; first: %s' % ((rel or rel2)[0][1][:700])))
+            S = res['summary']
+            ctx.cov.update({
+                'evaluations': S['cases'],
+                'distinct_nontrivial': min(S['nontrivial'], S['distinct']),
+                'rule': 'one operation per case on a freshly built BumpBox<str> / FixedBumpString / BumpString / MutBumpString holding 0..8 random characters (1-4 byte encodings, edge code points U+0, U+7F/80, U+7FF/800, U+D7FF/E000, U+FFFF/10000, U+10FFFF, embedded NULs): push, push_str, insert, insert_str, remove, pop, truncate, retain (callback answers scripted, panic at a random invocation in 1/3), drain (pulled from both ends, dropped or leaked), replace_range, extend_from_within, split_off with every kind of byte index (boundary, inside a character, = len, > len, inverted and empty ranges); every fourth case a conversion: from_utf8 / from_utf8_lossy on ill-formed bytes (truncated, overlong, surrogate, > U+10FFFF, stray continuation), from_utf16(_lossy) with unpaired surrogates, C-string constructors (into_cstr, alloc_cstr_from_str, alloc_cstr_fmt(_mut)), formatting. Every case replayed on the extracted Coq model (contents, returned characters, split-off part, panicked or not compared exactly), on std::string::String in lock-step, and core::str::from_utf8 on the raw bytes afterwards (also after a caught panic). non-trivial = cases that panicked, returned characters, split, rejected or repaired input (counted by the driver); distinct = distinct (kind, op, input, argument, answers)',
+                'samples': res['samples'],
+                'traces_validated_against_impl': S['cases'],
+                'input_distribution': {'by_kind_op': S['by_kind_op'], 'unwound': S['unwound'], 'off_boundary_args': S.get('off_boundary_args', 0), 'rejected_inputs': S.get('rejected_inputs', 0)},
+                'mismatches': {'model_vs_impl': S['mismatches'], 'impl_monitor_failures': S['impl_monitor_failures']},
+                'partial_note': C09_NOTE,
+            })
+    return ctx.finish(level='proof', obligations=nthm, discharged=nclosed,
+                      checker_cmd='make -C coq Properties/C09.vo (coqc 8.16.1; Print Assumptions under each theorem)' + ('; coqchk -o' if ctx.tier == 'thorough' else ''),
+                      extra_assumptions=['hand-written model (coq/Utf8.v, coq/Str.v) of bump_box.rs (impl BumpBox<str>), owned_str/drain.rs, bump_string.rs, fixed_bump_string.rs, alloc_cstr_from_str; tied to the code by the correspondence check; ' + C09_NOTE,
+                                         'the reserve before an insertion / replacement succeeded (spare capacity is long enough): allocation failure is C07'])
+
+
+def replay_C09(ctx, path):
+    r = json.load(open(path))
+    if r.get('kind') != 'strs-case' or not r.get('case'):
+        print(json.dumps(r, indent=1)[:3000])
+        return check_C09(ctx)
+    inp = os.path.join(CACHE, 'replay_strs.txt')
+    with open(inp, 'w') as f:
+        f.write(r['case'] + '\n')
+    if not ctx.build_driver():
+        return 1
+    res = run_colls(ctx, 0, [0], inputs_file=inp, binname='strs', prefix='S ')
+    strs_verdict(ctx, res)
+    for v in ctx.violations[:3]:
+        print('reproduced:', v.get('what_fails'))
+    if ctx.violations or ctx.problems:
+        p = ctx.write_replay('violation', r)
+        print('VIOLATION property=C09 replay=%s' % p)
+        return 1
+    print('the recorded case no longer fails on the current tree')
+    return 0
